@@ -19,7 +19,7 @@ import (
 //	mixed - all of the above
 func Random(rng *rand.Rand, profile string, n int) []Input {
 	if profile == "mixed" {
-		profile = []string{"elec", "fsm", "ops", "get", "flush"}[rng.Intn(5)]
+		profile = []string{"elec", "fsm", "ops", "get", "flush", "cut"}[rng.Intn(6)]
 	}
 	nis := []string{ribdrv.DefaultNI, "vrf1"}
 	fwd := rng.Intn(5) != 0
@@ -113,7 +113,11 @@ func Random(rng *rand.Rand, profile string, n int) []Input {
 		case 2:
 			o.EID = maxID
 		}
-		if rng.Intn(30) == 0 {
+		if rng.Intn(30) == 0 || (profile == "bad" && rng.Intn(4) == 0) {
+			if o.Kind == "nh" || o.Kind == "nhg" {
+				o.Key = "1" // most likely installed
+				o.NI = nis[0]
+			}
 			cs := abs.BadClasses(o.Kind, o.Typ)
 			o.Bad = cs[rng.Intn(len(cs))]
 		}
@@ -123,13 +127,19 @@ func Random(rng *rand.Rand, profile string, n int) []Input {
 		return o
 	}
 	msg := func(l string, m *Msg) {
-		ins = append(ins, Input{A: "msg", S: l, M: m})
+		in := Input{A: "msg", S: l, M: m}
+		// a transport failure on the server's first write for this message
+		if profile == "cut" && rng.Intn(8) == 0 || rng.Intn(60) == 0 && len(m.Ops) <= 1 {
+			in.SendFail = true
+			sess[l].open = false
+		}
+		ins = append(ins, in)
 	}
 	for len(ins) < n {
 		lv := live()
 		if len(lv) == 0 || (len(lv) < 3 && rng.Intn(8) == 0) {
 			l := open()
-			if profile != "fsm" || rng.Intn(3) != 0 {
+			if (profile != "fsm" && profile != "cut") || rng.Intn(3) != 0 {
 				msg(l, goodParams(fibMode))
 				sess[l].params = true
 			}
@@ -197,16 +207,21 @@ func Random(rng *rand.Rand, profile string, n int) []Input {
 					ops = append(ops, mkop(s))
 				}
 				msg(l, &Msg{K: "ops", Ops: ops})
-			case r < 84:
+			case r < 84 || (profile == "cut" && r < 90):
 				ins = append(ins, Input{A: "close", S: l, Mode: []string{"eof", "recverr"}[rng.Intn(2)]})
 				s.open = false
-			case r < 92 || profile == "get":
+			case r < 92 || profile == "get" || (profile == "cut" && r < 96):
 				g := &GetReq{NI: []string{"*", ribdrv.DefaultNI, "vrf1", "nosuchni", ""}[rng.Intn(5)],
 					AFT: []string{"ALL", "nh", "nhg", "v4", "v6", "mpls", "mac"}[rng.Intn(7)]}
 				if rng.Intn(3) != 0 {
 					g.NI = []string{"*", ribdrv.DefaultNI, "vrf1"}[rng.Intn(3)]
 				}
-				ins = append(ins, Input{A: "get", G: g})
+				gi := Input{A: "get", G: g}
+				if profile == "cut" || rng.Intn(6) == 0 {
+					k := rng.Intn(4)
+					gi.FailAfter = &k
+				}
+				ins = append(ins, gi)
 			default:
 				fr := &FlushReq{NI: []string{"*", ribdrv.DefaultNI, "vrf1", "", "nosuchni"}[rng.Intn(5)],
 					El: []string{"override", "none", "id", "id"}[rng.Intn(4)]}
